@@ -178,6 +178,10 @@ func verifMaxAlloc() int                   { return 0 }
 func verifAllocReset()                     {}
 func verifNote(s string)                   {}
 
+// verifWSReadLimit returns the message read limit of a stubbed WebSocket connection (executor only; natively the
+// harness exercises a real connection instead).
+func verifWSReadLimit(conn any) int64 { return 0 }
+
 // verifLastMarshal returns the value most recently handed to encoding/json.Marshal (executor only: there Marshal is an
 // opaque stub; natively harnesses inspect the real output instead).
 func verifLastMarshal() any { return nil }
